@@ -2,6 +2,7 @@ package rules
 
 import (
 	"go/token"
+	"go/types"
 	"strings"
 
 	"golang.org/x/tools/go/ssa"
@@ -527,4 +528,427 @@ func ruleAppendsWakeParkedCommittedReaders(c *eng.Ctx) {
 		}
 	}
 	c.Check(common != "", "an append at or below the watermark wakes the committed readers parked at the end of the log", p.Pos(rd[0].Pos()), "committedReader.Read waits on a source that Append / AppendMessageSet signal", "committedReader.Read parks on the watermark waiters only, which Append / AppendMessageSet never signal (they signal the segment's data waiters, on which a committed reader does not wait)")
+}
+
+// ---- rules for the round-5 misses
+
+// ruleNullMarkerExactlyForNil (R01.17): the encoder writes the null size (-1) for a nil byte slice and only for nil; an
+// empty, non-nil slice is stored with size 0 and reads back as empty. The decoder's nil test (R01.11) is the other half.
+func ruleNullMarkerExactlyForNil(c *eng.Ctx) {
+	fn := c.Fn(cl + "(*byteEncoder).PutBytes")
+	if fn == nil {
+		return
+	}
+	isNil := eng.CmpEdges(fn, eng.Param("in"), eng.NilConst, eng.EQ)
+	n := 0
+	for _, call := range eng.CallsIn(fn, cl+"byteEncoder.PutInt32") {
+		args := call.Common().Args
+		if !eng.IntConst(-1)(args[len(args)-1]) {
+			continue
+		}
+		n++
+		g, w := eng.GuardedBy(fn, call.(ssa.Instruction), isNil)
+		c.Check(g && len(isNil) > 0 && eng.ExactCmp(fn, eng.Param("in"), eng.NilConst, eng.EQ), "the null size is written exactly for a nil slice", c.Pos(call.(ssa.Instruction)), "if in == nil { e.PutInt32(-1) }", "byteEncoder.PutBytes writes the null size under another test than in == nil ("+w.String()+"): an empty, non-nil key, value or header value is stored as null and reads back as nil — what is read is not what was appended")
+	}
+	if n == 0 {
+		c.Unresolved("the PutInt32(-1) of byteEncoder.PutBytes")
+	}
+	if lf := c.Fn(cl + "(*lenEncoder).PutBytes"); lf != nil {
+		// the length pass agrees: only a nil slice takes no room beyond its size
+		c.Check(len(eng.CmpEdges(lf, eng.Param("in"), eng.NilConst, eng.EQ)) > 0 && eng.ExactCmp(lf, eng.Param("in"), eng.NilConst, eng.EQ), "the length pass skips the data exactly for a nil slice", c.P.Pos(lf.Pos()), "if in == nil { return nil }", "lenEncoder.PutBytes no longer tests in == nil: the buffer sized by the length pass and the bytes written by the encoding pass disagree for empty slices")
+	}
+}
+
+// ruleTruncationPointIsTheLeadersAnswer (R02.2 extension): the follower truncates to (answer + 1) only when the request
+// that produced the answer succeeded — the error tested after the retry loop is the one the loop's requests assigned.
+func ruleTruncationPointIsTheLeadersAnswer(c *eng.Ctx) {
+	fn := c.Fn("server.(*partition).truncateUncommitted")
+	if fn == nil {
+		return
+	}
+	reqs := eng.CallsIn(fn, "server.partition.sendLeaderOffsetRequest")
+	trs := eng.CallsIn(fn, "server/commitlog.CommitLog.Truncate")
+	if len(reqs) == 0 || len(trs) == 0 {
+		c.Unresolved("sendLeaderOffsetRequest / log.Truncate in truncateUncommitted")
+		return
+	}
+	// the error tested is the one the requests of the retry loop assigned (a variable that starts out nil and is assigned by
+	// every attempt: a phi of the nil constant and the call's second result)
+	answered := eng.CmpEdges(fn, func(v ssa.Value) bool {
+		return flowsFromCall(v, "server.partition.sendLeaderOffsetRequest", 1, map[ssa.Value]bool{})
+	}, eng.NilConst, eng.EQ)
+	for _, t := range trs {
+		g, w := eng.GuardedBy(fn, t.(ssa.Instruction), answered)
+		c.Check(g && len(answered) > 0, "the log is truncated to the leader's answer only when the request succeeded", c.Pos(t.(ssa.Instruction)), "p.log.Truncate(lastOffset+1) lies behind err == nil of sendLeaderOffsetRequest", "truncateUncommitted reaches log.Truncate without the error of its epoch-offset request having been found nil ("+w.String()+"): when every attempt fails the follower truncates to a value the leader never sent (the zero value: offset 1) and drops committed messages")
+		// and the value is the answer
+		args := t.Common().Args
+		v := args[len(args)-1]
+		ok := false
+		if bo, isBo := eng.Strip(v).(*ssa.BinOp); isBo && bo.Op == token.ADD {
+			ok = flowsFromCall(bo.X, "server.partition.sendLeaderOffsetRequest", 0, map[ssa.Value]bool{})
+		}
+		c.Check(ok, "the truncation point is the answer + 1", c.Pos(t.(ssa.Instruction)), "Truncate(lastOffset + 1), lastOffset from sendLeaderOffsetRequest", "the offset handed to log.Truncate is not (the leader's answer + 1)")
+	}
+}
+
+// flowsFromCall: v is the idx-th result of a call to ref, possibly through phis whose other inputs are constants.
+func flowsFromCall(v ssa.Value, ref string, idx int, seen map[ssa.Value]bool) bool {
+	v = eng.Strip(v)
+	if seen[v] {
+		return false
+	}
+	seen[v] = true
+	if eng.Call(idx, ref)(v) {
+		return true
+	}
+	if ph, ok := v.(*ssa.Phi); ok {
+		found := false
+		for _, e := range ph.Edges {
+			if eng.IsConst(eng.Strip(e)) {
+				continue
+			}
+			if es := eng.Strip(e); es == ph || seen[es] {
+				continue
+			}
+			if !flowsFromCall(e, ref, idx, seen) {
+				return false
+			}
+			found = true
+		}
+		return found
+	}
+	return false
+}
+
+// ruleRestoreAlwaysResets (R06.6 extension): Restore replaces the state — every successful return lies behind the reset.
+// A snapshot without streams and groups encodes to zero bytes; "nothing to read" is not "nothing to do".
+func ruleRestoreAlwaysResets(c *eng.Ctx) {
+	fn := c.Fn("server.(*Server).Restore")
+	if fn == nil {
+		return
+	}
+	isReset := eng.IsCallTo("server.metadataAPI.ResetForRestore", "server.metadataAPI.Reset")
+	n := 0
+	for _, r := range eng.Returns(fn) {
+		rv := eng.RetVals(r)
+		if len(rv) != 1 || !eng.NilConst(rv[0]) {
+			continue
+		}
+		n++
+		ok, w := eng.PrecededBy(fn, r, isReset)
+		c.Check(ok, "Restore reports success only after it has replaced the state", c.Pos(r), "every return nil lies behind s.metadata.ResetForRestore(…)", "Restore can return nil without having reset the metadata ("+w.String()+"): the snapshot of an emptied cluster encodes to zero bytes, and a server that skips it keeps the streams and groups the snapshot says are gone")
+	}
+	if n == 0 {
+		c.Unresolved("a successful return of Server.Restore")
+	}
+}
+
+// ruleRecoveredBookkeepingPairs (R01.8 extension): setupIndex re-derives the four bookkeeping fields from the index: first
+// offset and first write time from one entry (the first), last offset and last write time from one other entry (the last).
+func ruleRecoveredBookkeepingPairs(c *eng.Ctx) {
+	p := c.P
+	fn := c.Fn(cl + "(*segment).setupIndex")
+	if fn == nil {
+		return
+	}
+	base := map[string]ssa.Value{}
+	src := map[string]string{}
+	for _, f := range []string{"firstOffset", "firstWriteTime", "lastOffset", "lastWriteTime"} {
+		fo := p.Field(clPkg, "segment", f)
+		for _, st := range eng.FieldStores(fn, func(fa *ssa.FieldAddr) bool { return fieldIs(fa, fo) }) {
+			fv, b := eng.FieldRead(eng.Strip(st.Val))
+			if fv == nil {
+				continue
+			}
+			base[f], src[f] = eng.Strip(b), fv.Name()
+		}
+	}
+	if len(base) != 4 {
+		c.Unresolved("the four bookkeeping stores of segment.setupIndex")
+		return
+	}
+	ok := base["firstOffset"] == base["firstWriteTime"] && base["lastOffset"] == base["lastWriteTime"] && base["firstOffset"] != base["lastOffset"] &&
+		src["firstOffset"] == "Offset" && src["lastOffset"] == "Offset" && src["firstWriteTime"] == "Timestamp" && src["lastWriteTime"] == "Timestamp"
+	c.Check(ok, "a reopened segment takes first* from its first index entry and last* from its last", p.Pos(fn.Pos()), "firstOffset / firstWriteTime from one entry, lastOffset / lastWriteTime from the other", "setupIndex does not fill (firstOffset, firstWriteTime) from one index entry and (lastOffset, lastWriteTime) from another: after a restart the age of a segment's newest message is wrong, and the age limit removes a segment whose newest message is still inside the window (or keeps an expired one)")
+}
+
+// ruleSuccessfulSetCursorTouchesTheCache (R11.1 extension): a SetCursor that succeeded leaves the cache agreeing with the log
+// for that key — it stores the new offset or drops the entry. A value-dependent skip leaves the old offset to be served.
+func ruleSuccessfulSetCursorTouchesTheCache(c *eng.Ctx) {
+	fn := c.Fn("server.(*cursorManager).SetCursor")
+	if fn == nil {
+		return
+	}
+	pubs := eng.CallsIn(fn, "server.apiServer.Publish")
+	if len(pubs) != 1 {
+		return // reported by R11.1
+	}
+	pc := pubs[0].(*ssa.Call)
+	stored := eng.CmpEdges(fn, func(v ssa.Value) bool { e, ok := v.(*ssa.Extract); return ok && e.Tuple == pc && e.Index == 1 }, eng.NilConst, eng.EQ)
+	stored = append(stored, cellEdgesIdx(fn, pc, 1)...)
+	touches := func(in ssa.Instruction) bool {
+		ci, ok := in.(ssa.CallInstruction)
+		if !ok {
+			return false
+		}
+		ref := eng.CalleeRef(ci.Common())
+		return strings.HasPrefix(ref, lruPkg) && (strings.HasSuffix(ref, ".Cache.Add") || strings.HasSuffix(ref, ".Cache.Remove"))
+	}
+	q := &eng.PathQuery{Fn: fn, FromEdges: stored, Target: isReturn, CutInstr: touches}
+	w := q.Find()
+	c.Check(w == nil && len(stored) > 0, "every successful SetCursor updates the cached cursor", c.Pos(pc), "after err == nil of api.Publish every path to the return passes cache.Add (or cache.Remove)", "SetCursor can succeed without touching the cache entry of the key ("+w.String()+"): an earlier offset that is still cached is served until it is evicted, although a later SetCursor succeeded")
+}
+
+// ruleCommittedReaderCapsOnlyPastTheEnd (R10.9 extension): a start offset is replaced by "the next committed message" only
+// when it lies beyond the next offset to be assigned; the log end itself (newest + 1: NEW_ONLY, or an explicit offset) is a
+// position, and everything between the watermark and it must not be delivered.
+func ruleCommittedReaderCapsOnlyPastTheEnd(c *eng.Ctx) {
+	fn := c.Fn(cl + "(*commitLog).newReaderCommitted")
+	if fn == nil {
+		return
+	}
+	newest := eng.Call(-1, cl+"commitLog.NewestOffset")
+	next := eng.Bin(token.ADD, newest, eng.IntConst(1))
+	past := eng.CmpEdges(fn, eng.Param("offset"), next, eng.GT)
+	ok := len(past) > 0 && eng.ExactCmp(fn, eng.Param("offset"), next, eng.GT) && !eng.CmpExists(fn, eng.Param("offset"), newest)
+	c.Check(ok, "a start offset is capped only when it is past the next offset to be assigned", c.P.Pos(fn.Pos()), "if offset > l.NewestOffset()+1 { offset = hw + 1 }", "newReaderCommitted replaces the start offset under another test than offset > NewestOffset()+1: a subscription that starts exactly at the log end while the watermark is behind delivers the older messages between the watermark and its start once they commit")
+}
+
+// ruleCleanAlwaysRunsAPass (R09.7 extension): every call of commitLog.Clean evaluates the limits — nothing returns before
+// the cleaners ran. What a remembered "nothing changed since the last pass" describes includes whatever was appended or
+// rolled while that pass was running, which the pass never looked at.
+func ruleCleanAlwaysRunsAPass(c *eng.Ctx) {
+	fn := c.Fn(cl + "(*commitLog).Clean")
+	if fn == nil {
+		return
+	}
+	pass := eng.IsCallTo(cl + "commitLog.clean")
+	n := 0
+	for _, r := range eng.Returns(fn) {
+		n++
+		ok, w := eng.PrecededBy(fn, r, pass)
+		c.Check(ok, "Clean evaluates the limits on every call", c.Pos(r), "every return lies behind l.clean(segments)", "commitLog.Clean can return without having run the cleaners ("+w.String()+"): a log that exceeded a limit through appends made while the previous pass was running stays over the limit for as long as it is idle")
+	}
+	if n == 0 {
+		c.Unresolved("a return of commitLog.Clean")
+	}
+}
+
+// ruleBeginningOfLogOnlyAtTheFirstSegment (R10.2 extension): a reverse reader that re-positions itself reports "beginning of
+// the log" (io.EOF) only when the segment it found is the first of the list. A found segment that begins above the reader's
+// offset says nothing about older segments: compaction can have removed the reader's segment as a whole.
+func ruleBeginningOfLogOnlyAtTheFirstSegment(c *eng.Ctx) {
+	fn := c.Fn(cl + "(*ReverseReader).reinitialize")
+	if fn == nil {
+		return
+	}
+	first := eng.CmpEdges(fn, eng.Call(1, cl+"findSegment"), eng.IntConst(0), eng.EQ)
+	n := 0
+	for _, r := range eng.Returns(fn) {
+		for _, v := range eng.RetVals(r) {
+			if !eng.Global("io.EOF")(eng.Strip(v)) {
+				continue
+			}
+			n++
+			g, w := eng.GuardedBy(fn, r, first)
+			c.Check(g && len(first) > 0, "a re-positioned reverse reader ends only at the first segment", c.Pos(r), "io.EOF only where the found segment's index is 0", "ReverseReader.reinitialize reports the beginning of the log without knowing that the found segment is the first ("+w.String()+"): when compaction removed the reader's segment as a whole, the older segments are never delivered and the subscription ends early")
+		}
+	}
+	if n == 0 {
+		c.OK("a re-positioned reverse reader ends only at the first segment", c.P.Pos(fn.Pos()), "reinitialize never answers io.EOF itself; the end is found by the scanner")
+	}
+}
+
+// ruleKeyScanCoversEverySegment (R08.1 extension): every segment handed to scanKeys reaches a scan worker: the segments are
+// fed one by one, in a loop over the whole list. Handing out computed sub-ranges has to prove that the ranges cover the list.
+func ruleKeyScanCoversEverySegment(c *eng.Ctx) {
+	fn := c.Fn(cl + "(*compactCleaner).scanKeys")
+	if fn == nil {
+		return
+	}
+	segs := eng.Param("segments")
+	sliced := false
+	fed := false
+	eng.Instrs(fn, func(in ssa.Instruction) {
+		switch x := in.(type) {
+		case *ssa.Slice:
+			if segs(x.X) {
+				sliced = true
+			}
+		case *ssa.Send:
+			if ia := indexOfLoad(eng.Strip(x.X)); ia != nil && segs(ia.X) {
+				fed = true
+			}
+		}
+	})
+	// the loop counter of a range over the list (go/ssa rotates the loop: the compared value is counter + 1)
+	counter := func(v ssa.Value) bool {
+		if _, isPhi := v.(*ssa.Phi); isPhi {
+			return true
+		}
+		bo, isBo := v.(*ssa.BinOp)
+		if !isBo || bo.Op != token.ADD {
+			return false
+		}
+		_, isPhi := bo.X.(*ssa.Phi)
+		return isPhi && eng.IntConst(1)(bo.Y)
+	}
+	whole := len(eng.CmpEdges(fn, counter, eng.Len(segs), eng.LT)) > 0
+	c.Check(fed && whole && !sliced, "the key scan is handed every segment", c.P.Pos(fn.Pos()), "for _, seg := range segments { segmentC <- seg }", "scanKeys does not feed every element of its segment list to the scan workers (sub-ranges computed from len(segments)/workers drop the remainder): keys whose latest message sits in an unscanned segment are compacted away")
+}
+
+// ruleNewerMemberAlwaysWins (R13.2 extension): whenever the group already has a member on the partition, the subscriber
+// replaces it only across the comparison of the two group epochs — no value of the request (an epoch of 0, "not provided")
+// by-passes the fence.
+func ruleNewerMemberAlwaysWins(c *eng.Ctx) {
+	p := c.P
+	fn := c.Fn("server.(*partition).Subscribe")
+	if fn == nil {
+		return
+	}
+	consumers := p.Field("server", "partition", "consumers")
+	found := eng.BoolEdges(fn, func(v ssa.Value) bool {
+		e, isE := v.(*ssa.Extract)
+		if !isE || e.Index != 1 {
+			return false
+		}
+		lk, isLk := e.Tuple.(*ssa.Lookup)
+		return isLk && lk.CommaOk && eng.Load(consumers, nil)(lk.X)
+	}, true)
+	ge := func(v ssa.Value) bool { return eng.LoadNamed("groupEpoch", nil)(v) }
+	notStale := eng.CmpEdges(fn, ge, eng.AnyV, eng.LE)
+	if len(found) == 0 || len(notStale) == 0 {
+		c.Unresolved("the member lookup / epoch comparison of partition.Subscribe")
+		return
+	}
+	// an edge on which the member was found AND its epoch is known not to be newer carries both facts; start only from the
+	// ones that still have the comparison ahead of them
+	var from []eng.Edge
+	for _, e := range found {
+		already := false
+		for _, n := range notStale {
+			if n == e {
+				already = true
+			}
+		}
+		if !already {
+			from = append(from, e)
+		}
+	}
+	found = from
+	q := &eng.PathQuery{Fn: fn, FromEdges: found, CutEdges: notStale, Target: func(x ssa.Instruction) bool {
+		if ci, ok := x.(ssa.CallInstruction); ok && eng.CalleeRef(ci.Common()) == "server.subscription.Close" {
+			return true
+		}
+		_, ok := x.(*ssa.MapUpdate)
+		return ok
+	}}
+	w := q.Find()
+	c.Check(w == nil, "an existing member is replaced only across the epoch comparison", p.Pos(fn.Pos()), "from 'the group has a member here' the cancel / registration is reachable only over existing.groupEpoch <= groupEpoch", "partition.Subscribe can cancel or replace the group's current member without having compared the group epochs ("+w.String()+"): a request that by-passes the comparison (an epoch of 0) takes the partition from a member of a newer group epoch")
+}
+
+// ruleResumeAtTheFirstRetainedEntry (R18.3 extension): when the entry to publish next was compacted away the dispatcher
+// continues AT the first index of the log — that entry is retained and may be an operation that was never published.
+func ruleResumeAtTheFirstRetainedEntry(c *eng.Ctx) {
+	fn := c.Fn("server.(*activityManager).dispatch")
+	if fn == nil {
+		return
+	}
+	firstIdx := eng.Call(0, "github.com/hashicorp/raft.LogStore.FirstIndex", "github.com/hashicorp/raft-boltdb/v2.BoltStore.FirstIndex")
+	uses, exact := 0, 0
+	eng.Instrs(fn, func(in ssa.Instruction) {
+		ph, isPhi := in.(*ssa.Phi)
+		if !isPhi {
+			return
+		}
+		for _, e := range ph.Edges {
+			es := eng.Strip(e)
+			if firstIdx(es) {
+				uses++
+				exact++
+				continue
+			}
+			if bo, isBo := es.(*ssa.BinOp); isBo && (firstIdx(eng.Strip(bo.X)) || firstIdx(eng.Strip(bo.Y))) {
+				uses++
+			}
+		}
+	})
+	if uses == 0 {
+		c.Unresolved("the index the dispatcher resumes at after a compacted entry")
+		return
+	}
+	c.Check(uses == exact, "after compaction the dispatcher resumes at the first retained entry", c.P.Pos(fn.Pos()), "index = first (the answer of FirstIndex())", "dispatch resumes at an index computed from FirstIndex() rather than at it: the first retained entry — an operation that may never have been published — is skipped and its event is lost")
+}
+
+// ruleEveryBatchedMessageWasValidated (R14.5 / R04.4 extension): a message enters the batch that is appended as a whole only
+// after Validate() accepted it. Append fails for the whole batch on a message the encoder refuses, so one oversized header key
+// silently drops the ordinary publishes batched with it.
+func ruleEveryBatchedMessageWasValidated(c *eng.Ctx) {
+	fn := c.Fn("server.(*partition).messageProcessingLoop")
+	if fn == nil {
+		return
+	}
+	valid := eng.CmpEdges(fn, eng.Call(-1, "server/commitlog.Message.Validate"), eng.NilConst, eng.EQ)
+	n := 0
+	eng.Instrs(fn, func(in ssa.Instruction) {
+		call, isCall := in.(*ssa.Call)
+		if !isCall || !isBuiltinCall(call, "append") || len(call.Call.Args) < 2 {
+			return
+		}
+		st, isSlice := call.Type().Underlying().(*types.Slice)
+		if !isSlice || !strings.HasSuffix(st.Elem().String(), "commitlog.Message") {
+			return
+		}
+		n++
+		g, w := eng.GuardedBy(fn, in, valid)
+		c.Check(g && len(valid) > 0, "a message joins the batch only after Validate() accepted it", c.Pos(in), "msgBatch = append(msgBatch, m) lies behind m.Validate() == nil", "messageProcessingLoop batches a message that was not validated ("+w.String()+"): a publish the log encoding refuses (a header key beyond the 16-bit length) makes Append fail for the whole batch — the ordinary publishes batched with it are neither stored nor nacked")
+	})
+	if n == 0 {
+		c.Unresolved("the batch appends of messageProcessingLoop")
+	}
+}
+
+// ruleReloadIsUnconditional (R15.9 extension): a SIGHUP always reloads the policy — whatever the file holds is the policy.
+// An emptied file is how the last permissions are revoked.
+func ruleReloadIsUnconditional(c *eng.Ctx) {
+	var fn *ssa.Function
+	for _, f := range c.P.Funcs {
+		k := ir.FuncKey(f)
+		if strings.HasPrefix(k, "server.(*Server).handleSignals") && len(eng.CallsIn(f, "github.com/casbin/casbin/v2.Enforcer.LoadPolicy", "github.com/casbin/casbin/v2.SyncedEnforcer.LoadPolicy", "github.com/casbin/casbin/v2.CoreApi.LoadPolicy")) > 0 {
+			fn = f
+		}
+	}
+	if fn == nil {
+		c.Unresolved("the SIGHUP branch of handleSignals that calls LoadPolicy")
+		return
+	}
+	// the branch taken for SIGHUP: from the comparison of the received signal with SIGHUP every path to the next receive
+	// passes LoadPolicy
+	isHup := func(v ssa.Value) bool {
+		k, ok := eng.Strip(v).(*ssa.Const)
+		if !ok || k.Value == nil {
+			return false
+		}
+		n, isInt := eng.ConstVal(k)
+		return isInt && n == 1 // syscall.SIGHUP
+	}
+	hup := eng.EdgesWhere(fn, func(av eng.AtomView) bool { return av.RelHolds(eng.AnyV, isHup, eng.EQ) })
+	if len(hup) == 0 {
+		c.Unresolved("the test for SIGHUP in handleSignals")
+		return
+	}
+	reload := eng.IsCallTo("github.com/casbin/casbin/v2.Enforcer.LoadPolicy", "github.com/casbin/casbin/v2.SyncedEnforcer.LoadPolicy", "github.com/casbin/casbin/v2.CoreApi.LoadPolicy")
+	q := &eng.PathQuery{Fn: fn, FromEdges: hup, CutInstr: reload, Target: func(x ssa.Instruction) bool {
+		switch y := x.(type) {
+		case *ssa.Return:
+			return true
+		case *ssa.UnOp:
+			return y.Op == token.ARROW
+		case *ssa.Select:
+			return true
+		}
+		return false
+	}}
+	w := q.Find()
+	c.Check(w == nil, "every SIGHUP reloads the policy", c.P.Pos(fn.Pos()), "from the SIGHUP case every path to the next signal passes LoadPolicy", "handleSignals can skip the reload for a SIGHUP ("+w.String()+"): a state of the policy file — an emptied one is how the last permissions are revoked — leaves everybody who was authorised authorised")
 }
